@@ -75,7 +75,11 @@ func TestC06(t *testing.T) {
 		if err := json.Unmarshal(raw, &rp); err != nil {
 			t.Fatal(err)
 		}
-		p.runSequence(rp.Cases, true)
+		// a two-view request is applied in map order: give a failure that depends on
+		// that order a few chances to show again
+		for try := 0; try < 4 && res.NFailures() == 0; try++ {
+			p.runSequence(rp.Cases, true)
+		}
 		return
 	}
 
